@@ -9,7 +9,6 @@ import (
 
 	"github.com/kstenerud/go-concise-encoding/ce"
 	"github.com/kstenerud/go-concise-encoding/configuration"
-	describe "github.com/kstenerud/go-describe"
 	"github.com/kstenerud/go-uleb128"
 )
 
@@ -28,9 +27,9 @@ func renderResult(v interface{}, err error, panicked interface{}) string {
 		return "panic"
 	}
 	if err != nil {
-		return "err|" + describe.D(v)
+		return "err|" + canonDescribe(v)
 	}
-	return "ok|" + describe.D(v)
+	return "ok|" + canonDescribe(v)
 }
 
 func guard(f func() string) (res string) {
